@@ -846,7 +846,11 @@ func (sc *Script) Render(logic string, extraAxioms []*Term, wantModel bool) stri
 					}
 					f := scalarFact(hc.comp, cur, hc.wm)
 					if f != True {
-						facts = append(facts, Forall(bound, f, [][]*Term{{cur}}))
+						if len(bound) == 0 {
+							facts = append(facts, f)
+						} else {
+							facts = append(facts, Forall(bound, f, [][]*Term{{cur}}))
+						}
 					}
 				}
 			}
